@@ -91,6 +91,8 @@ type Interp struct {
 	liveCache  map[*ssa.Function]*liveInfo
 	seen       map[uint64]bool
 	Merged     int
+	NFinished  int
+	KeepFinished bool // keep the final states (needed only for postconditions)
 	InitNotes  map[string]string
 	allocLimit func(n int64, in ssa.Instruction, s *State) string // optional: judge allocation sizes
 	inputLen   int
@@ -212,6 +214,7 @@ func (it *Interp) initGlobals() {
 		save := it.lim
 		it.lim = Limits{MaxStates: 50, MaxSteps: 200000, MaxVisits: 5000, MaxDepth: 30}
 		it.Faults, it.Finished = nil, nil
+		it.KeepFinished = true
 		it.pushFrame(st, initFn, nil, nil, nil)
 		it.Run(st)
 		it.lim = save
@@ -232,6 +235,7 @@ func (it *Interp) initGlobals() {
 		it.Faults, it.Finished = nil, nil
 	}
 	it.Paths, it.Truncated, it.Steps, it.Merged = 0, 0, 0, 0
+	it.KeepFinished = false
 	it.TruncWhy = map[string]int{}
 	it.Unsupported = map[string]int{}
 }
@@ -743,7 +747,10 @@ func (it *Interp) doReturn(s *State, fr *Frame, res []AV) {
 	if len(s.frames) == 0 {
 		s.result = res
 		s.done = true
-		it.Finished = append(it.Finished, s)
+		it.NFinished++
+		if it.KeepFinished {
+			it.Finished = append(it.Finished, s)
+		}
 		return
 	}
 	caller := s.top()
